@@ -403,5 +403,8 @@ def decode(st):
         _i.dataReceived(st)
     finally:
         _i.buffer = b""
+        # A truncated or refused stream may leave partially received lists
+        # open; they must not swallow the items of the next decode() call.
+        del _i.listStack[:]
         del _i.expressionReceived
     return l[0]
